@@ -59,7 +59,7 @@ func RunDSSRecord(cfg DSSConfig, res *core.Result) error {
 		}
 		t := tmin + rng.Intn(n-tmin+1)
 		class := []string{"nil", "empty", "b1", "text", "b64", "b4096"}[rng.Intn(6)]
-		s := ss.get(src, n, t, class)
+		s := ss.get(src, n, t, t, class)
 		if s == nil {
 			res.Skip(fmt.Sprintf("no %s keys for n=%d t=%d", src, n, t))
 			continue
